@@ -1094,8 +1094,10 @@ class Engine:
         failing = bool(cmd.get("fail_first")) and self.async_yields > 0
         if failing:
             # the first generation fails while the other lookups wait for it: they must then share ONE new generation
-            self.fail_next[cmd["fid"]] = 1
+            self.fail_next[cmd["fid"]] = cmd.get("fail_count", 1)
             self.inc("race_cases_with_failing_first_generation")
+            if cmd.get("fail_count", 1) >= 10:
+                self.inc("race_cases_with_10plus_generations_failing_in_a_row")
         results: list[Any] = []
         by_racer: dict[int, Any] = {}
         intervals: list[Any] = []
@@ -1153,7 +1155,7 @@ class Engine:
         if expected[0] == "ok":
             objs = [r[1] for r in results if r[0] == "ok"]
             excs = [r[1] for r in results if r[0] == "exc"]
-            failed = (1 - self.fail_next.get(cmd.get("fid"), 0)) if failing else 0
+            failed = (cmd.get("fail_count", 1) - self.fail_next.get(cmd.get("fid"), 0)) if failing else 0
             bad_excs = [e for e in excs if not isinstance(e, FactoryFailed)]
             if bad_excs or len(excs) > failed:
                 self.bad("race-lookup-raised", f"{cmd}: racing lookups raised {[describe_exc(e) for e in excs]} ({failed} generation(s) were made to fail)", **witness)
@@ -1501,6 +1503,11 @@ class Engine:
                         "pre": rng.randint(0, 4), "yields": rng.randint(1, 3)}
             pre = [rng.randint(0, 3) for _ in range(rng.randint(2, 5))]
             free = [tt for tt in f.types if (tt, nm) not in mc.resources]
+            if f.is_async and rng.random() < 0.06:
+                # a crowd: 12-16 lookups racing for one product, and the first ten or eleven generations all fail
+                pre = [rng.randint(0, 3) for _ in range(rng.randint(12, 16))]
+                return {"op": "race", "cid": cid, "type": t, "name": nm, "pre": pre, "apis": ["async" for _ in pre], "types": [t] + [rng.choice(free) for _ in pre[1:]],
+                        "yields": rng.randint(1, 3), "factory_async": True, "fid": f.fid, "fail_first": True, "fail_count": rng.choice([10, 11]), "intruder_pre": None}
             return {"op": "race", "cid": cid, "type": t, "name": nm, "pre": pre,
                     "apis": [rng.choice(["async", "async", "nowait"]) if not f.is_async else "async" for _ in pre],
                     "types": [t] + [rng.choice(free) for _ in pre[1:]],
